@@ -31,7 +31,7 @@ var variableMutators = []string{"unused-variable", "undefined-variable", "duplic
 // (schema, document, variables, operation name) alone, not of what the instances saw before.
 // Both sides are the repository's own code; the oracle is the metamorphic relation
 // "history does not matter", so recorded validation findings need no exclusion here.
-var reusePart = pbt.Part[seqCase]{Name: "reused-instances-agree-with-fresh", Quick: 6000, Thorough: 120000, Check: checkSeq,
+var reusePart = pbt.Part[seqCase]{Name: "reused-instances-agree-with-fresh", Quick: 20000, Thorough: 120000, Check: checkSeq,
 	Gen: func(t *rapid.T) seqCase {
 		sdl, super := genSchema(t)
 		c := seqCase{Super: sdl}
